@@ -394,6 +394,8 @@ func vpBareType(obj client.Object) client.Object {
 		return &ngfAPIv1alpha1.UpstreamSettingsPolicy{}
 	case *ngfAPIv1alpha1.SnippetsFilter:
 		return &ngfAPIv1alpha1.SnippetsFilter{}
+	case *ngfAPIv1alpha1.NginxGateway:
+		return &ngfAPIv1alpha1.NginxGateway{}
 	case *metav1.PartialObjectMetadata:
 		return &metav1.PartialObjectMetadata{TypeMeta: metav1.TypeMeta{Kind: "CustomResourceDefinition", APIVersion: "apiextensions.k8s.io/v1"}}
 	case *apiext.CustomResourceDefinition:
